@@ -205,11 +205,21 @@ func (r *Replayer) runNative(files []string, env []string, limit time.Duration) 
 // collect reads result files; vectors without a result are re-run alone with a short limit, and a
 // vector that still produces nothing is reported as a hang (or crash) of the native call.
 func (r *Replayer) collect(files []string, idx []int, out []*NativeResult, batchOut []byte) error {
+	hangs := 0
 	for k, i := range idx {
 		rb, rerr := os.ReadFile(files[k] + ".out")
+		if rerr != nil && hangs >= 3 {
+			// three hanging inputs are evidence enough; the rest of this batch is not run alone
+			out[i] = &NativeResult{Assumed: true}
+			continue
+		}
 		if rerr != nil {
+			hangs++
 			b, _ := r.runNative([]string{files[k]}, nil, 20*time.Second)
 			rb, rerr = os.ReadFile(files[k] + ".out")
+			if rerr == nil {
+				hangs--
+			}
 			if rerr != nil {
 				msg := "hang: the native call did not return within 20s"
 				if strings.Contains(string(b), "panic:") || strings.Contains(string(b), "fatal error:") {
